@@ -2,7 +2,6 @@ package props
 
 import (
 	"fmt"
-	"go/token"
 	"go/types"
 	"strings"
 
@@ -366,19 +365,8 @@ func r106(c *an.Ctx, rule string) {
 		if c.Prog.IsGenerated(fn.Pos()) {
 			continue
 		}
-		for _, b := range fn.Blocks {
-			if b.Comment != "rangechan.loop" {
-				continue
-			}
-			var recv *ssa.UnOp
-			for _, in := range b.Instrs {
-				if u, ok := in.(*ssa.UnOp); ok && u.Op == token.ARROW {
-					recv = u
-				}
-			}
-			if recv == nil {
-				continue
-			}
+		for _, rl := range an.RecvLoops(fn) {
+			b, recv := rl.Header, rl.Recv
 			// producer: a call with a context argument whose result is the ranged channel
 			var prod *ssa.Call
 			for _, s := range an.Sources(recv.X) {
